@@ -787,6 +787,18 @@ class X509Certificate(_Observable):
         ('extensions', ExtensionsProperty(spec_version='2.0')),
     ])
 
+    def _check_object_constraints(self):
+        super(X509Certificate, self)._check_object_constraints()
+
+        att_list = [
+            'is_self_signed', 'hashes', 'version', 'serial_number',
+            'signature_algorithm', 'issuer', 'validity_not_before',
+            'validity_not_after', 'subject', 'subject_public_key_algorithm',
+            'subject_public_key_modulus', 'subject_public_key_exponent',
+            'x509_v3_extensions',
+        ]
+        self._check_at_least_one_property(att_list)
+
 
 def CustomObservable(type='x-custom-observable', properties=None):
     """Custom STIX Cyber Observable Object type decorator.
